@@ -44,6 +44,29 @@ CHECKS = {
         "through the verif yield hook and judged by TLC; free-running 8x32 stress under the race detector is judged by the same rule.",
    note="data races are decided by the Go race detector, not by the specification",
    technique="TLA+ step-level concurrency model checked by TLC; TLC-generated schedules replayed on goroutines via yield hook; TLC judges results; race detector"),
+ "C03": dict(level="model_checking", ref="DESIGN.md §5 C03",
+   text="MPTTxn.tla (block trie + child tries with open/op/merge/reject/discard) is model-checked by TLC for isolation, no-trace and "
+        "no-lost-update; TLC emits every behaviour of depth 4 (quick) / 5 (thorough) plus -simulate samples; these and seeded random "
+        "multi-transaction blocks run on real tries over layered stores; after every event TLC compares every live trie's root, "
+        "content, pending new/dead node sets with the specification (tries not targeted by the event must be exactly as before).",
+   note="children left open across a change of the parent's root are stale: errors accepted, wrong data not; observation alternates "
+        "between API reads and store-only reads so that node caches are not warmed by the observer",
+   technique="TLA+ spec (MPTTxn.tla) + TLC design check + TLC-generated behaviours replayed into the Go code + TLC trace validation (MPTRounds.tla)"),
+ "C04": dict(level="model_checking", ref="DESIGN.md §5 C04",
+   text="MPTPersist.tla (rounds, atomic save batch, dead-node record, prune, crash at every storage operation, re-execution) is "
+        "model-checked exhaustively (Safe/Complete/DeadNotLive, two design mutants refuted); real multi-round histories on the "
+        "stub-backed PNodeDB are recorded with one event per storage write element and validated by TLC: every retained saved root "
+        "resolvable in every intermediate store state, the saved root complete on the store alone, and a really reopened store reads "
+        "exactly the saved content after every save, crash and prune.",
+   note="RocksDB is replaced by an in-memory stub with ordered keys and atomic batches; a crash keeps a prefix of the write stream",
+   technique="TLA+ persistence/crash model checked by TLC + TLC trace validation of per-write-element traces of the real PNodeDB/trie"),
+ "C05": dict(level="model_checking", ref="DESIGN.md §5 C05",
+   text="Same model and traces: TLC checks that no node reported dead by a round is reachable from that round's or any later "
+        "round's root (reachability computed in TLA+ over the shipped node graph), that pruning deletes only nodes recorded dead "
+        "below the prune version, and that every retained root stays resolvable after every prune delete batch, including "
+        "interrupted and re-run prunes.",
+   note="prune batch boundary (1000 keys) is exercised only by thorough-tier histories with many dead nodes",
+   technique="TLA+ reachability invariants (MPTRounds.tla / MPTPersist.tla) checked by TLC on real per-write-element traces"),
 }
 
 NOT_APPLICABLE = []
